@@ -7,4 +7,5 @@ var Registry = map[string]func(args []string){
 	"stoprace": StopRace,
 	"fidconc":  FidConc,
 	"cfs":      Cfs,
+	"wire":     Wire,
 }
